@@ -235,11 +235,8 @@ static void run_op(kdump_ctx_t *ctx, struct cfg *cfg, const char *op)
 		if (!bmp) { printf("Bg!%d", (int)s); return; }
 		if (last < first || last - first > 4095) { printf("Bg?"); return; }
 		{
-			/* slack: elf_get_bits clears bits up to the start of the next
-			 * segment even when that lies beyond `last` (a defect of the page
-			 * map code, C07, independent of history) */
 			size_t n = (last - first) / 8 + 1, i;
-			unsigned char *raw = malloc(n + 65536);
+			unsigned char *raw = malloc(n);
 			memset(raw, 0x5a, n);
 			s = kdump_bmp_get_bits(bmp, first, last, raw);
 			printf("Bg%d:", (int)s);
